@@ -17,6 +17,7 @@ func init() {
 }
 
 func c36(r *core.Run) {
+	c36DecodeTotal(r)
 	w := r.W
 	const fp = "pkg/keystore/file"
 	dec := w.Func(fp, "decryptData")
